@@ -653,8 +653,9 @@ theorem emit_then (st : WS) (a : R Bytes) (k : WS → R (Unit × WS)) (kb : R By
 theorem gen_YearOffset_write_eq (st : WS) (y : ZoneYearOffset) (h0 : 0 ≤ y.dayOfWeek) (h7 : y.dayOfWeek ≤ 7) :
     Gen.C14W.YearOffset.write st y = emit st (writeYearOffset y) := by
   unfold Gen.C14W.YearOffset.write writeYearOffset
-  rw [flags_gen y h0 h7, gen_Writer_writeByte_eq]
+  rw [flags_gen y h0 h7]
   dsimp only [Gen.C14W.YearOffset.timeOfDay, ltTickOfDay]
+  rw [gen_Writer_writeByte_eq]
   obtain ⟨out, pool⟩ := st
   rcases h1 : writeByte ((y.mode.toNat : Int) * 32 + y.dayOfWeek * 4 + (if y.advance = true then 2 else 0) + (if y.addDay = true then 1 else 0)) with e1 | f
   · rfl
